@@ -573,6 +573,11 @@ func intentVote(h *Hist) bool {
 		vote = definition.VoteYes // enough of them make the project (or its phase) pass at the next update
 	}
 	data := definition.ABICommon.PackMethodPanic(definition.VoteByNameMethodName, id, ps.Name, vote)
+	if c.Weighted("vt.byProducer", 3, 1) == 1 {
+		// the same vote cast with the pillar's producing key (genesis pillars produce with their own address)
+		data = definition.ABICommon.PackMethodPanic(definition.VoteByProdAddressMethodName, id, vote)
+		return h.call(from, types.AcceleratorContract, types.ZnnTokenStandard, big.NewInt(0), data, fmt.Sprintf("accelerator.VoteByProdAddress(%s) by %s", id.String()[:8], ps.Name))
+	}
 	return h.call(from, types.AcceleratorContract, types.ZnnTokenStandard, big.NewInt(0), data, fmt.Sprintf("accelerator.VoteByName(%s, %s)", id.String()[:8], ps.Name))
 }
 
